@@ -22,7 +22,8 @@ def t3(rep, tier, seed):
 def run(rep, tier, seed):
     rep.level = "exploration"
     rep.assume("A1", "A2", "A4", "A5", "A6", "A7", "A8")
-    D.run_contracts(rep, "C06", D.PART_HEUR + D.FIT + D.COVER, tier, with_lemmas=True)
+    D.run_contracts(rep, "C06", D.PART_HEUR + D.FIT + D.COVER + D.TQ, tier, with_lemmas=True)
     D.run_contracts(rep, "C06", D.binners(), tier, also=("C16",))
+    D.run_contracts(rep, "C06", D.relational(), tier)
     t3(rep, tier, seed)
     D.link_falsifier(rep)
